@@ -159,6 +159,53 @@ def run(ctx):
                             if pf["res"] != "ok" or any(aft2.get(paths[n]) != originals[paths[n]] for n in names):
                                 report("with all recovery files back, Repair does not converge to the originals from state %s (%s)" % (tgt[0], fmt), replay); continue
                             dist["converged_after_volumes_return"] += 1
+        # ---- the same histories on a REAL directory (defaultFileIO: what a write leaves on disk, e.g. of a longer file) ----
+        full_states = [(combo, vs, fs) for combo, vs, fs in states if len(vs) == len(vols)]
+        if not thorough:
+            full_states = [st_ for k_, st_ in enumerate(full_states) if k_ % 2 == 0 or "prepend" in st_[0]]
+        dirs = L.parent_dirs(paths.values())
+        if fmt == "par2":
+            rr = [L.line_repair("p2", "real", index, False, 1, fs, dirs=dirs) for _, _, fs in full_states]
+        else:
+            rr = [P1.line_repair("real", index, False, fs, dirs=dirs) for _, _, fs in full_states]
+        rri = ctx.run_lines(vh, rr); rrm = ctx.run_lines(model, rr)
+        second = []
+        for (combo, vs, fs), line, x, y in zip(full_states, rr, rri, rrm):
+            px = L.parse_result(x)
+            dist["real_directory_repairs"] = dist.get("real_directory_repairs", 0) + 1
+            ctx.count("%s|%s|real|%s" % (fmt, id(owner), combo), any(c != "orig" for c in combo))
+            replay = {"lines": [line], "format": fmt, "state": [list(combo), len(vs)], "impl": x[:1000], "model": y[:1000], "class": {"op": "repair-real"}}
+            if px["res"] in ("panic", "crash"):
+                report("Repair crashed on a real directory in state %s (%s)" % (combo, fmt), replay); continue
+            after = L.apply_changed(fs, px["changed"])
+            if px["res"] == "ok":
+                bad = [n for n in names if after.get(paths[n]) != originals[paths[n]]]
+                if bad:
+                    report("a successful Repair on a real directory left %s different from the original (state %s, %s)" % (bad, combo, fmt), replay); continue
+            else:
+                worse = [n for n in names if after.get(paths[n]) != fs.get(paths[n]) and after.get(paths[n]) != originals[paths[n]]]
+                if worse:
+                    report("a failed Repair on a real directory increased the damage: %s (state %s, %s)" % (worse, combo, fmt), replay); continue
+            if L.canon(x, "real") != L.canon(y, "real"):
+                report("Repair on a real directory differs from the model in state %s (%s): impl=%s model=%s" % (combo, fmt, x.split(" trace=")[0], y.split(" trace=")[0]), replay, True); continue
+            second.append((combo, after))
+        if fmt == "par2":
+            v2 = [L.line_verify("p2", "real", index, 1, fs2, dirs=dirs) for _, fs2 in second]
+            r2 = [L.line_repair("p2", "real", index, True, 1, fs2, dirs=dirs) for _, fs2 in second]
+        else:
+            v2 = [P1.line_verify("real", index, True, fs2, dirs=dirs) for _, fs2 in second]
+            r2 = [P1.line_repair("real", index, True, fs2, dirs=dirs) for _, fs2 in second]
+        v2i = ctx.run_lines(vh, v2); r2i = ctx.run_lines(vh, r2)
+        for (combo, fs2), lv, lr, a2, x2 in zip(second, v2, r2, v2i, r2i):
+            pa2, px2 = L.parse_result(a2), L.parse_result(x2)
+            ctx.count("%s|%s|real2|%s" % (fmt, id(owner), combo), True)
+            intact = all(fs2.get(paths[n]) == originals[paths[n]] for n in names)
+            replay = {"lines": [lv, lr], "format": fmt, "state": [list(combo)], "impl": [a2[:800], x2[:800]], "class": {"op": "second-real"}}
+            if pa2["changed"] or (intact and (px2["changed"] or px2["repaired"])):
+                report("on a real directory, after a Repair from state %s (%s): Verify changed files or a further Repair rewrote %s" % (combo, fmt, sorted(px2["changed"]) or px2["repaired"]), replay); continue
+            c2 = pa2.get("counts")
+            if intact and not (pa2["res"] == "ok" and c2 and (c2[5] == "0" if fmt == "par2" else c2[1] == "0")):
+                report("on a real directory, Verify is not clean after a successful Repair from state %s (%s): %s" % (combo, fmt, a2.split(" trace=")[0]), replay)
         if len(ctx.samples) < 4:
             ctx.sample({"format": fmt, "files": {n: list(var[n]) for n in names}, "recovery_files": len(vols), "states": len(states)})
     return ctx.finish(
